@@ -116,6 +116,68 @@ def _run(entry):
     return core.by_keyword(func, args, observe)
 
 
+def _norm(obj):
+    if isinstance(obj, (list, tuple)):
+        return tuple(_norm(v) for v in obj)
+    if isinstance(obj, (set, frozenset)):
+        return tuple(sorted(_norm(v) for v in obj))
+    return obj
+
+
+def _mix(obj, flip):
+    """Innermost sequences of numbers (points, boxes) alternately as tuple and as list; every
+    other container keeps its type (some are written to by the function under test)."""
+    if isinstance(obj, (list, tuple)) and obj and \
+            all(isinstance(v, (int, float)) and not isinstance(v, bool) for v in obj):
+        flip[0] += 1
+        return tuple(obj) if flip[0] % 2 else list(obj)
+    if isinstance(obj, list):
+        return [_mix(v, flip) for v in obj]
+    if isinstance(obj, tuple):
+        return tuple(_mix(v, flip) for v in obj)
+    return obj
+
+
+def _plain(entry, variant):
+    """Outcome of the positional call under a variant of the *circumstances*: points handed over
+    alternately as tuples and lists ("mixed"), or the caller's decimal context changed."""
+    import copy                             # pylint: disable=import-outside-toplevel
+    if entry[0] == "pair":
+        _tag, func, args = entry
+        call = lambda a: func(*a, False)                                # noqa: E731
+        observe = None
+    else:
+        func, args, observe = entry
+        call = lambda a: func(*a)                                       # noqa: E731
+    mine = copy.deepcopy(list(args))
+    if variant == "mixed":
+        mine = _mix(mine, [0])
+    try:
+        if variant.startswith("decimal:"):
+            from .props.c20 import decimal_setting                      # pylint: disable=import-outside-toplevel
+            with decimal_setting(variant.split(":", 1)[1]):
+                got = call(mine)
+        else:
+            got = call(mine)
+        return ("value", _norm(observe(got, mine) if observe else got))
+    except Exception as exc:                # pylint: disable=broad-except
+        return ("raised", type(exc).__name__)
+
+
+VARIANTS = ("mixed", "decimal:prec6", "decimal:round_down", "decimal:traps_inexact")
+
+
+def _run_variant(entry, variant):
+    base, other = _plain(entry, "plain"), _plain(entry, variant)
+    if base != other and repr(base) != repr(other):
+        name = getattr(entry[1] if entry[0] == "pair" else entry[0], "__name__", "call")
+        args = entry[2] if entry[0] == "pair" else entry[1]
+        what = "points handed over alternately as tuples and as lists" if variant == "mixed" \
+            else f"the caller's decimal context set to {variant.split(':', 1)[1]}"
+        return (f"{name}{tuple(args)!r} with {what} gives {other!r}; otherwise {base!r}")[:700]
+    return None
+
+
 def explore(prop):
     part = core.Part()
     for number, entry in enumerate(_cases(prop)):
@@ -124,9 +186,17 @@ def explore(prop):
         if msg:
             part.violation(f"callform:{prop}:{number}", msg,
                            {"kind": "callform", "prop": prop, "number": number})
+        for variant in VARIANTS:
+            msg = _run_variant(entry, variant)
+            part.count("call_form_cases")
+            if msg:
+                part.violation(f"callform:{prop}:{number}:{variant}", msg,
+                               {"kind": "callform", "prop": prop, "number": number,
+                                "variant": variant})
     return part
 
 
 def replay(case):
-    msg = _run(_cases(case["prop"])[case["number"]])
+    entry = _cases(case["prop"])[case["number"]]
+    msg = _run_variant(entry, case["variant"]) if case.get("variant") else _run(entry)
     return [msg] if msg else []
